@@ -243,6 +243,15 @@ impl DiscoveryDB {
     if active_disposal {
       self.remove_topic_reader_with_prefix(guid_prefix);
       self.remove_topic_writer_with_prefix(guid_prefix);
+      // The participant may have timed out before its dispose message arrived.
+      // Then its endpoints are in the attic, and must not come back from there,
+      // if we ever hear from that GUID prefix again.
+      self
+        .external_topic_readers_attic
+        .retain(|guid, _| guid.prefix != guid_prefix);
+      self
+        .external_topic_writers_attic
+        .retain(|guid, _| guid.prefix != guid_prefix);
     } else {
       // move to attic
       move_by_guid_prefix(
@@ -281,6 +290,9 @@ impl DiscoveryDB {
   pub fn remove_topic_reader(&mut self, guid: GUID) {
     info!("remove_topic_reader {:?}", guid);
     self.external_topic_readers.remove(&guid);
+    // A disposed reader of a timed-out participant must not come back, when the
+    // participant is found again.
+    self.external_topic_readers_attic.remove(&guid);
   }
 
   #[cfg(feature = "security")]
@@ -308,6 +320,7 @@ impl DiscoveryDB {
 
   pub fn remove_topic_writer(&mut self, guid: GUID) {
     self.external_topic_writers.remove(&guid);
+    self.external_topic_writers_attic.remove(&guid);
   }
 
   // Delete participant proxies, if we have not heard of them within
